@@ -108,7 +108,7 @@ package run
 //@   modifies nothing
 //@
 //@ func (*Run).teardownActiveScenario
-//@   props C06 C05
+//@   props C06 C05 C08
 //@   requires r != nil && r.output != nil && r.result != nil && wfResult(r.result) && r.result.views != nil && r.activeScenario != nil && wfT(r.activeScenario.t) &&
 //@            isBound(r.activeScenario.Teardown, r.activeScenario.t, "teardown")
 //@   dyncall Teardown : method testing.(*T).teardown(r.activeScenario.t)
@@ -117,7 +117,7 @@ package run
 //@   ensures [cleanups] forall j int :: 0 <= j && j < old(len(r.activeScenario.t.teardownStack)) ==> Gcalled[j] == old(Gcalled[j]) + 1
 //@
 //@ func (*Run).reportSetupFailure
-//@   props C06 C05
+//@   props C06 C05 C08
 //@   modifies r.result.errors
 //@   requires r != nil && r.output != nil && r.result != nil && wfResult(r.result) && r.result.views != nil
 //@   ensures [setup-error] result == r.result && len(r.result.errors) == old(len(r.result.errors)) + 1 && wfResult(r.result)
